@@ -198,14 +198,14 @@ def run_worker(prop, comp, tier, shard, nshards, outfile):
 
 def _run_hyp(prop, comp, tier, shard, nshards, ctx, tally, deadline):
     import hypothesis
-    from hypothesis import HealthCheck, Phase, given, settings
+    from hypothesis import HealthCheck, Phase, Verbosity, given, settings
     n = comp.examples(tier)
     state = {"last_fail": None}
     strat = comp.strategy(tier)
 
     @hypothesis.seed(derive_seed(prop, comp.name, shard))
     @settings(max_examples=n, database=None, deadline=None, derandomize=False,
-              report_multiple_bugs=False, print_blob=False,
+              report_multiple_bugs=False, print_blob=False, verbosity=Verbosity.quiet,
               phases=[Phase.generate, Phase.shrink],
               suppress_health_check=[HealthCheck.too_slow, HealthCheck.data_too_large,
                                      HealthCheck.large_base_example,
@@ -256,13 +256,13 @@ def _run_enum(prop, comp, tier, shard, nshards, ctx, tally, deadline):
 
 def _run_stateful(prop, comp, tier, shard, nshards, ctx, tally, deadline):
     import hypothesis
-    from hypothesis import HealthCheck, Phase, settings
+    from hypothesis import HealthCheck, Phase, Verbosity, settings
     from hypothesis.stateful import run_state_machine_as_test
     state = {"last_fail": None}
     machine = comp.machine(tier, ctx, tally, state, deadline)
     st = settings(max_examples=comp.examples(tier), stateful_step_count=comp.steps(tier),
                   database=None, deadline=None, derandomize=False, report_multiple_bugs=False,
-                  print_blob=False, phases=[Phase.generate, Phase.shrink],
+                  print_blob=False, verbosity=Verbosity.quiet, phases=[Phase.generate, Phase.shrink],
                   suppress_health_check=list(HealthCheck))
     try:
         run_state_machine_as_test(
